@@ -727,4 +727,158 @@ example : InputsAvailable exChain [("x", 3)] := by
 example : (chainEval (exChain.map (fun d => d.1.run)) [("x", 3)]).val "b" = some 21 := by
   decide +kernel
 
+/-! ### Processes as disciplines of the MDA chain (`Item`, `requiresMdaK`, `nestedEval`)
+
+A chain of disciplines with a feedback shows a name both as input and as output: for the
+dependency graph it is a self-coupled discipline, and the `MDAChain` has to iterate it (one sweep of
+the chain is not the solution of its equations). Only an MDA built beforehand is executed as is. -/
+
+/-- When none of the disciplines is an MDA, the kinds do not matter. -/
+theorem requiresMdaK_eq_requiresMda (ds : List Disc) (kind : Nat → PKind)
+    (h : ∀ i, kind i ≠ PKind.mda) (g : List Nat) :
+    requiresMdaK ds kind g = requiresMda ds g := by
+  unfold requiresMdaK requiresMda
+  match g with
+  | [] => rfl
+  | [d] =>
+    have : (kind d != PKind.mda) = true := by simpa using h d
+    simp [this]
+  | _ :: _ :: _ => rfl
+
+/-- A self-coupled discipline alone in its group gets an inner MDA exactly when it is not an MDA
+    itself: in particular every self-coupled *process* (an `MDOChain` with a feedback) does. -/
+theorem singleton_requires_mda_iff (ds : List Disc) (kind : Nat → PKind) (d : Nat) :
+    requiresMdaK ds kind [d] = true ↔ selfCoupledAt ds d = true ∧ kind d ≠ PKind.mda := by
+  simp [requiresMdaK]
+
+theorem self_coupled_process_requires_mda (ds : List Disc) (kind : Nat → PKind) (d : Nat)
+    (hs : selfCoupledAt ds d = true) (hk : kind d = PKind.process) :
+    requiresMdaK ds kind [d] = true :=
+  (singleton_requires_mda_iff ds kind d).2 ⟨hs, by rw [hk]; decide⟩
+
+theorem groups_of_several_always_require_mda (ds : List Disc) (kind : Nat → PKind)
+    (a b : Nat) (r : List Nat) : requiresMdaK ds kind (a :: b :: r) = true := by
+  simp [requiresMdaK]
+
+/-- An `MDOChain` is self-coupled for the `MDAChain` exactly when one of its disciplines reads a
+    name that no earlier discipline of the chain produces but some discipline of the chain does
+    (itself or a later one): a feedback inside the chain. -/
+theorem chain_self_coupled_iff_feedback (bs : List Disc) :
+    selfCoupled (chainDisc bs) = true ↔
+      ∃ pre a post v, bs = pre ++ a :: post ∧ v ∈ a.inputs ∧ (∀ d' ∈ pre, v ∉ d'.outputs) ∧
+        ∃ b ∈ bs, v ∈ b.outputs := by
+  unfold selfCoupled chainDisc
+  simp only [List.any_eq_true, Bool.and_eq_true, List.contains_eq_mem, decide_eq_true_eq,
+    List.not_mem_nil, decide_false, Bool.not_false, and_true]
+  constructor
+  · rintro ⟨v, hin, hout⟩
+    obtain ⟨pre, a, post, hs, hva, hp⟩ := (mem_chainGrammar_inputs bs v).1 hin
+    exact ⟨pre, a, post, v, hs, hva, hp, (mem_chainGrammar_outputs bs v).1 hout⟩
+  · rintro ⟨pre, a, post, v, hs, hva, hp, hb⟩
+    exact ⟨v, (mem_chainGrammar_inputs bs v).2 ⟨pre, a, post, hs, hva, hp⟩,
+      (mem_chainGrammar_outputs bs v).2 hb⟩
+
+/-- A chain listed in a valid schedule order (nobody reads what a later one or itself produces)
+    is not self-coupled: wrapping such disciplines in an `MDOChain` adds no inner MDA. -/
+theorem scheduled_chain_not_self_coupled (bs : List Disc)
+    (h : ∀ pre a post, bs = pre ++ a :: post → ∀ v ∈ a.inputs, ∀ b ∈ a :: post, v ∉ b.outputs) :
+    selfCoupled (chainDisc bs) = false := by
+  rw [Bool.eq_false_iff]
+  intro hsc
+  obtain ⟨pre, a, post, v, hs, hva, hp, b, hb, hvb⟩ := (chain_self_coupled_iff_feedback bs).1 hsc
+  rw [hs] at hb
+  rcases List.mem_append.1 hb with hb | hb
+  · exact hp b hb hvb
+  · exact h pre a post hs v hva b hb hvb
+
+/-- The `MDAChain` over one self-coupled process returns what the inner MDA over it returns (the
+    solved group), not one execution of the process; an MDA built beforehand is executed once. -/
+theorem self_coupled_process_is_solved (ds : List Disc) (kind : Nat → PKind) (d : Nat)
+    (run : Nat → Block) (solve : List Nat → Block) (outsOf : List Nat → List String)
+    (parallel : Bool) (e : Env)
+    (hs : selfCoupledAt ds d = true) (hk : kind d ≠ PKind.mda) :
+    mdaChainEval [[[d]]] run (requiresMdaK ds kind) solve outsOf parallel e = solve [d] e := by
+  have h := (singleton_requires_mda_iff ds kind d).2 ⟨hs, hk⟩
+  simp [mdaChainEval, h]
+
+theorem prebuilt_mda_is_executed_once (ds : List Disc) (kind : Nat → PKind) (d : Nat)
+    (run : Nat → Block) (solve : List Nat → Block) (outsOf : List Nat → List String)
+    (parallel : Bool) (e : Env) (hk : kind d = PKind.mda) :
+    mdaChainEval [[[d]]] run (requiresMdaK ds kind) solve outsOf parallel e = run d e := by
+  have h : requiresMdaK ds kind [d] = false := by simp [requiresMdaK, hk]
+  simp [mdaChainEval, h]
+
+theorem nestedEval_eq (lds : List LinDisc) (items : List Item) (parallel : Bool) (e : Env) :
+    nestedEval lds items parallel e =
+      mdaChainEval (sequence (items.map (Item.disc (lds.map (·.disc)))))
+        (runItemAt lds items)
+        (requiresMdaK (items.map (Item.disc (lds.map (·.disc)))) (kindAt items))
+        (fun g => solveGroupBlock lds (membersOf items g))
+        (fun g => g.flatMap (outputsAt (items.map (Item.disc (lds.map (·.disc))))))
+        parallel e := rfl
+
+/-- `mda_chain_equals_monolithic` for a listing of items (plain disciplines, chains, MDAs built
+    beforehand): the data returned by the `MDAChain` satisfies the specification of every block
+    and is the only such data extending the inputs. The hypotheses are those of
+    `mda_chain_equals_monolithic` read on the grammars of the items. -/
+theorem nested_chain_equals_monolithic (lds : List LinDisc) (items : List Item)
+    (spec : List Nat → BlockSpec)
+    (hrun : ∀ g, (spec g).run =
+      blockOfGroup (runItemAt lds items)
+        (requiresMdaK (items.map (Item.disc (lds.map (·.disc)))) (kindAt items))
+        (fun g => solveGroupBlock lds (membersOf items g)) g)
+    (hcons : ∀ i j v, i ≠ j → v ∈ outputsAt (items.map (Item.disc (lds.map (·.disc)))) i →
+      v ∉ outputsAt (items.map (Item.disc (lds.map (·.disc)))) j)
+    (hw : ∀ g k, k ∈ (spec g).writes →
+      ∃ i ∈ g, k ∈ outputsAt (items.map (Item.disc (lds.map (·.disc)))) i)
+    (he : ∀ g k, k ∈ (spec g).ext →
+      ∃ i ∈ g, k ∈ inputsAt (items.map (Item.disc (lds.map (·.disc)))) i)
+    (hself : ∀ g, ∀ k ∈ (spec g).ext, k ∉ (spec g).writes)
+    (e : Env)
+    (hpre : ∀ pre b post,
+      (sequence (items.map (Item.disc (lds.map (·.disc))))).flatten.map spec = pre ++ b :: post →
+      b.Pre (chainEval (pre.map (·.run)) e)) :
+    (∀ g ∈ (sequence (items.map (Item.disc (lds.map (·.disc))))).flatten,
+      (spec g).Sat (nestedEval lds items false e)) ∧
+    ∀ e' : Env,
+      (∀ g ∈ (sequence (items.map (Item.disc (lds.map (·.disc))))).flatten, (spec g).Sat e') →
+      (∀ k, (∀ g ∈ (sequence (items.map (Item.disc (lds.map (·.disc))))).flatten,
+        k ∉ (spec g).writes) → e'.val k = e.val k) →
+      ∀ k, e'.val k = (nestedEval lds items false e).val k := by
+  rw [nestedEval_eq]
+  generalize items.map (Item.disc (lds.map (·.disc))) = tds at *
+  have h := mda_chain_equals_monolithic tds spec
+    (runItemAt lds items)
+    (requiresMdaK tds (kindAt items))
+    (fun g => solveGroupBlock lds (membersOf items g))
+    (fun g => g.flatMap (outputsAt tds))
+  have h2 := h hrun
+  have h3 := h2 hcons hw he hself e
+  have h4 := h3 hpre
+  exact h4
+
+/-! Non-vacuity and witness: `A: y = 1 + x/2`, `B: x = y/2` wrapped in one `MDOChain [A, B]`.
+    The chain reads `x` (nobody produced it before `A`) and produces it: self-coupled. The MDA chain
+    solves `x = 2/3, y = 4/3`; one sweep of the chain from `x = 0` gives `x = 1/2, y = 1`. -/
+
+def nA : LinDisc := ⟨⟨"A", ["x"], ["y"], []⟩, [⟨"y", 1, [("x", 1/2)]⟩]⟩
+def nB : LinDisc := ⟨⟨"B", ["y"], ["x"], []⟩, [⟨"x", 0, [("y", 1/2)]⟩]⟩
+def nItems : List Item := [.chain [0, 1]]
+
+example : selfCoupled (Item.disc [nA.disc, nB.disc] (.chain [0, 1])) = true := by decide +kernel
+example : nestedInnerMdas [nA.disc, nB.disc] nItems = [[0]] := by decide +kernel
+example : (nestedEval [nA, nB] nItems false [("x", 0)]).val "x" = some (2/3) := by decide +kernel
+example : (nestedEval [nA, nB] nItems false [("x", 0)]).val "y" = some (4/3) := by decide +kernel
+/-- Witness: executing the self-coupled chain once is *not* the whole system at once. -/
+theorem one_sweep_is_not_the_solution :
+    ((Item.chain [0, 1]).run [nA, nB] [("x", 0)]).val "x" = some (1/2) ∧
+    (nestedEval [nA, nB] nItems false [("x", 0)]).val "x" ≠
+      ((Item.chain [0, 1]).run [nA, nB] [("x", 0)]).val "x" := by decide +kernel
+-- the same two disciplines as an MDA built beforehand: no second inner MDA, same solution
+example : nestedInnerMdas [nA.disc, nB.disc] [.mda [0, 1] false] = [] := by decide +kernel
+example : (nestedEval [nA, nB] [.mda [0, 1] false] false [("x", 0)]).val "x" = some (2/3) := by
+  decide +kernel
+-- in schedule order behind a producer of `x`, the chain has no feedback
+example : selfCoupled (chainDisc [⟨"P", [], ["x"], []⟩, nA.disc]) = false := by decide +kernel
+
 end GV.C08
